@@ -194,6 +194,7 @@ pub fn run_topic(topic: &str, cx: &mut Ctx) -> bool {
         "hascoal" => hascoal(cx),
         "fold" => fold(cx),
         "refs" => refs(cx),
+        "parse_eval" => parse_eval(cx),
         _ => return false,
     }
     true
@@ -1290,6 +1291,35 @@ pub fn refs(cx: &mut Ctx) {
                         cx.out(c);
                     }
                 }
+            }
+        }
+    }
+}
+
+// ---------------------------------------------------------------------------------------------
+// C02: parenthesisation and whitespace do not change the result
+
+pub fn parse_eval(cx: &mut Ctx) {
+    let g = ExprGen { vars: vec!["a".into(), "b".into(), "c".into(), "d".into()], progs: vec![], funcs: vec![], macros: true, fstrings: false, matches: true };
+    for i in 0..cx.n {
+        let t = g.expr(&mut cx.rng, 2 + (i % 4) as u32);
+        let mut c = cx.case(t);
+        bind_random(&mut c, &["a", "b", "c", "d"], &mut cx.rng, 1);
+        c.forms = forms(&["bound", "full", "randparen", "ws", "wsparen"]);
+        cx.out(c);
+    }
+    // distinct non-commuting operands under every pair of adjacent operators
+    let ops = ["||", "&&", "<", "<=", "==", "!=", ">=", ">", "+", "-", "*", "/", "%"];
+    for o1 in ops {
+        for o2 in ops {
+            for shape in 0..2 {
+                let t = if shape == 0 { bin(o2, bin(o1, id("a"), id("b")), id("c")) } else { bin(o1, id("a"), bin(o2, id("b"), id("c"))) };
+                let mut c = cx.case(t);
+                c.bind.insert("a".into(), V::Int(7));
+                c.bind.insert("b".into(), V::Int(3));
+                c.bind.insert("c".into(), V::Int(2));
+                c.forms = forms(&["bound", "full", "randparen", "ws", "lit"]);
+                cx.out(c);
             }
         }
     }
